@@ -4,12 +4,13 @@
        the right operand's pending contracts, a RecordValues that ignores the pending contracts.
        The witnesses show that pending_tracked and observe_blames_iff_reached would fail for
        them, i.e. that the theorems do tell such a primitive apart.
-   (2) A statement the faithful model refutes: "a violating component is blamed with the label of
-       its own annotation".  ArrayConcat keeps the *left* operand's pending contracts for all the
-       elements when [contract_eq] equates the two lists, and [contract_eq] does not look at the
-       labels; an element of the right operand that violates is then blamed with the left
-       operand's label (wrong polarity / wrong party).  This is why the theorems of Main.v compare
-       blame errors up to polarity.  Replayed on nickel: see known_findings.txt. *)
+   (2) "A violating component is blamed with the label of its own annotation" after ArrayConcat.
+       Before 95e63eb ArrayConcat kept the *left* operand's pending contracts for all the
+       elements whenever [contract_eq] equated the two lists, labels not looked at: an element of
+       the right operand that violates was blamed with the left operand's label (found by this
+       check, known finding concat-keeps-left-labels, since fixed).  The model follows the
+       repaired code: the statement now holds ([concat_tracked], [concat_label_preserved]) and is
+       refuted for the pre-fix variant ([concat_prefix_label_refuted]). *)
 From Coq Require Import List ZArith String Bool Arith.
 Import ListNotations.
 From NV Require Import Delayed.Model Delayed.Spec Delayed.Tracked Delayed.Rel Delayed.Main.
@@ -22,11 +23,9 @@ Definition bad_right : list thunk := [TVal (Ok (VStr "bad"))].
 
 Lemma concat_broken_not_tracked_refuted :
   exists es1 p1 es2 p2,
-    forall p2', map snd p2' = map snd p2 ->
-      view_arr (prim_array_concat_broken es1 p1 es2 p2) <> view_arr (VArr es1 p1) ++ view_arr (VArr es2 p2').
+    view_arr (prim_array_concat_broken es1 p1 es2 p2) <> view_arr (VArr es1 p1) ++ view_arr (VArr es2 p2).
 Proof.
-  exists [TVal (Ok (VNum 1))], [], bad_right, [(true, CNum)].
-  intros p2' H. destruct p2' as [|[b c] [|? ?]]; cbn; discriminate.
+  exists [TVal (Ok (VNum 1))], [], bad_right, [(true, CNum)]. cbn. discriminate.
 Qed.
 
 (** With the broken concat the violating component is reached and *not* blamed. *)
@@ -78,10 +77,28 @@ Definition from_caller : thunk :=
 Example label_direct : force 8 (TObs OId from_caller) = Err EBlameNeg.
 Proof. vm_compute. reflexivity. Qed.
 
-(** ... but after [([1] | Array Number) @ x], the same component is blamed with the positive label
-    of the literal's annotation. *)
-Lemma concat_label_refuted :
+(** ... and also after [([1] | Array Number) @ x]: every element keeps the labels of its own
+    operand (the general statement is [concat_tracked]: the view of the result is exactly the
+    concatenation of the two views). *)
+Theorem concat_label_preserved :
+  forall l, l = LArr [ANum 1] (Some (CArr CNum)) ->
+    force 8 (TObs (OConcatL l) from_caller) = Err EBlameNeg /\
+    force 8 (TObs OId from_caller) = Err EBlameNeg.
+Proof. intros l ->. vm_compute. auto. Qed.
+
+(** ArrayConcat as it was before 95e63eb kept the left operand's labels whenever [contract_eq]
+    equated the two lists: the component was blamed with the positive label of the literal's
+    annotation.  (Replayed on nickel at the time: known finding concat-keeps-left-labels, now
+    fixed.) *)
+Lemma concat_prefix_label_refuted :
   exists (l : lit),
-    force 8 (TObs (OConcatL l) from_caller) = Err EBlame /\
+    force 8 (TObs (OConcatL_prefix l) from_caller) = Err EBlame /\
     force 8 (TObs OId from_caller) = Err EBlameNeg.
 Proof. exists (LArr [ANum 1] (Some (CArr CNum))). vm_compute. auto. Qed.
+
+Lemma concat_prefix_not_tracked_refuted :
+  exists es1 p1 es2 p2,
+    view_arr (prim_array_concat_prefix es1 p1 es2 p2) <> view_arr (VArr es1 p1) ++ view_arr (VArr es2 p2).
+Proof.
+  exists [TVal (Ok (VNum 1))], [(true, CNum)], bad_right, [(false, CNum)]. cbn. discriminate.
+Qed.
